@@ -406,6 +406,16 @@ type exactScanner struct {
 	// failAt > 0: the failAt-th ReadByte call fails once (nothing consumed)
 	failAt, readByteCalls int
 	fired                 bool
+	// the slice the last Peek returned: like bufio's, it stops being valid at the next read
+	// call - this scanner makes that visible by overwriting it then
+	lastPeek []byte
+}
+
+func (e *exactScanner) invalidate() {
+	for i := range e.lastPeek {
+		e.lastPeek[i] = 0x47 ^ byte(0xA5+i)
+	}
+	e.lastPeek = nil
 }
 
 var errScannerTransient = errors.New("sim: the scanner's ReadByte failed (transient, nothing consumed)")
@@ -432,6 +442,7 @@ func (e *exactScanner) fill(n int) error {
 }
 
 func (e *exactScanner) ReadByte() (byte, error) {
+	e.invalidate()
 	e.readByteCalls++
 	if e.failAt > 0 && e.readByteCalls == e.failAt {
 		e.fired = true
@@ -458,12 +469,15 @@ func (e *exactScanner) UnreadByte() error {
 func (e *exactScanner) Peek(n int) ([]byte, error) {
 	err := e.fill(n)
 	if err != nil {
-		return append([]byte(nil), e.pend...), err
+		e.lastPeek = append([]byte(nil), e.pend...)
+		return e.lastPeek, err
 	}
-	return append([]byte(nil), e.pend[:n]...), nil
+	e.lastPeek = append([]byte(nil), e.pend[:n]...)
+	return e.lastPeek, nil
 }
 
 func (e *exactScanner) Read(p []byte) (int, error) {
+	e.invalidate()
 	if len(e.pend) > 0 {
 		n := copy(p, e.pend)
 		e.pend = e.pend[n:]
